@@ -50,3 +50,5 @@ mod registries;
 mod smart_account;
 #[cfg(all(kani, any(feature = "aw96", feature = "xdrdigest"), any(feature = "cap2", feature = "cap3"), not(feature = "cap8")))]
 mod context_rules;
+#[cfg(kani)]
+mod verifiers;
